@@ -110,7 +110,7 @@ def validate_samples(samples):
     return n, bad
 
 
-def run_property(pid, tier, seed, module_name=None):
+def run_property(pid, tier, seed, module_name=None, post=None):
     t0 = time.time()
     mod = importlib.import_module(module_name or f'mirse.props.{pid.lower()}')
     jobs = mod.jobs(tier, seed)
@@ -177,6 +177,13 @@ def run_property(pid, tier, seed, module_name=None):
         all_viol += agg.violations
         job_reports.append(rep)
         total.merge(agg)
+    extra_cov = {}
+    if post is not None:
+        try:
+            pv, pmsgs, extra_cov = post()
+            all_viol += pv; inconclusive += pmsgs
+        except Exception as e:
+            inconclusive.append('post stage failed: ' + ''.join(traceback.format_exception(type(e), e, e.__traceback__))[-800:])
     # ---- replay gate
     reported = []; known_lines = []; gate_fail = []
     seen = set()
@@ -230,6 +237,7 @@ def run_property(pid, tier, seed, module_name=None):
         'wall_s': round(wall, 1),
         'violations': len(reported),
     }
+    ev['coverage'].update(extra_cov)
     if inconclusive: ev['coverage']['inconclusive'] = inconclusive[:10]
     if gate_fail: ev['coverage']['counterexamples_not_reproduced'] = [{'msg': v['msg'], 'replay': p, 'gate': st} for v, p, st, d in gate_fail[:5]]
     if known_lines: ev['coverage']['known_findings'] = known_lines
